@@ -436,8 +436,15 @@ impl Package {
         if let (Ok(payload_digest_val), Ok(payload_digest_algo)) =
             (payload_digest_val, payload_digest_algo)
         {
-            let payload_digest_algo = DigestAlgorithm::from_u32(payload_digest_algo)
-                .expect("Completely unknown payload digest algorithm");
+            let payload_digest_algo = match DigestAlgorithm::from_u32(payload_digest_algo) {
+                Some(algo) => algo,
+                None => {
+                    return Err(Error::InvalidTagValueEnumVariant {
+                        tag: "RPMTAG_PAYLOADDIGESTALGO".to_string(),
+                        variant: payload_digest_algo,
+                    });
+                }
+            };
 
             // @todo: UnsupportedDigestAlgorithm is awkward, if a number is outside the range of the expected
             // variants to begin with, we can't even return it, as it carries a DigestAlgorithm. But also, in
@@ -453,7 +460,8 @@ impl Package {
                 hasher.update(self.content.as_slice());
                 hex::encode(hasher.finalize())
             };
-            if payload_digest != payload_digest_val[0] {
+            // a recorded payload digest without any value cannot match
+            if payload_digest_val.is_empty() || payload_digest != payload_digest_val[0] {
                 return Err(Error::DigestMismatchError);
             }
         }
